@@ -6,9 +6,27 @@ from harness.c11 import full_dump
 from harness.ir import IRProp
 
 
+def patch_maker(case):
+    """text -> Patch.  In a third of the cases the patches declare constraints that make the ABI build a frame around them (the flags
+    are saved and restored); within one context a text that is used at several places is served by ONE Patch object, as a
+    transformation that registers one patch at many places does.  A fresh context starts with fresh objects."""
+    import gtirb_rewriting
+    framed = sum(len(repr(m_)) for m_ in case.mods) % 3 == 0
+    made = {}
+
+    def mk(text):
+        if text not in made:
+            @gtirb_rewriting.patch_constraints(clobbers_flags=framed)
+            def patch(ctx, _text=text):
+                return _text
+            made[text] = gtirb_rewriting.Patch.from_function(patch)
+        return made[text]
+    return mk
+
+
 def apply_batch(case):
     import gtirb_rewriting
-    from helpers import literal_patch
+    literal_patch = patch_maker(case)
     B = irgen.build(case)
     ctx = gtirb_rewriting.RewritingContext(B.m, B.fobjs)
     for (i, t, off, ln, patch, to_proxy) in case.mods:
@@ -32,7 +50,6 @@ def apply_one_at_a_time(case):
     by its address: the block that starts there (inside the region of its original block), else the block that ends there."""
     import gtirb_functions
     import gtirb_rewriting
-    from helpers import literal_patch
     B = irgen.build(case)
     sizes = [case.size(i) for i in range(len(case.blocks))]           # current length of each original block's region
     order = sorted(enumerate(case.mods), key=lambda x: (x[1][0], x[1][2], x[0]))
@@ -53,7 +70,7 @@ def apply_one_at_a_time(case):
         fobjs = B.fobjs if first else gtirb_functions.Function.build_functions(B.m)
         first = False
         ctx = gtirb_rewriting.RewritingContext(B.m, fobjs)
-        p = patch if isinstance(patch, bytes) or patch is None else literal_patch(patch)
+        p = patch if isinstance(patch, bytes) or patch is None else patch_maker(case)(patch)
         if t == "del" and to_proxy and not (o == 0 and ln == blk.size):
             to_proxy = False
         if t == "ins":
@@ -77,7 +94,7 @@ class C09(IRProp):
     id = "C09"
     prop_file = "Properties/C09.v"
     tag = "c09"
-    genopts = dict(max_mods=2, with_aux=False, whole_del=0.2, data_first=0.3)
+    genopts = dict(max_mods=2, with_aux=False, whole_del=0.2, data_first=0.3, call_history=0.15)
     trusted_base = IRProp.base_trusted
     assumptions = ["in the one-at-a-time runs a pending modification is located again by the address of its byte (block starting there inside "
                    "the region of its original block, else the block ending there); temporary label suffixes are normalised; "
